@@ -20,10 +20,13 @@ CONSTANTS
   M_LowerCopies = TRUE
   M_ErrClearedBeforeDecode = TRUE
   M_SubjectPerException = TRUE
+  M_FirstRuleWins = TRUE
+  M_SourceFallsBackToInputId = TRUE
+  SKeyMaxLen = 4
   MSyms = {1, 2}
   MDataMax = 3
   MValMax = 2
   MCi = {FALSE}
   MPairLens = {1, 2}
-INVARIANTS TypeOK RefusedOnlyIf CutIsPrefix WithinLimitUntouched MatchAgrees DataUnchanged CriAdmitted CriVerdictIgnoresAntispam ExceptionListExempts DisabledNeverDrops ExceptionNeverDrops SpamOnlyIfBanned BanOnlyAfterThreshold UnbanWithin VerdictDetermined Export
+INVARIANTS TypeOK RefusedOnlyIf CutIsPrefix WithinLimitUntouched MatchAgrees DataUnchanged CriAdmitted CriVerdictIgnoresAntispam ExceptionListExempts RuleListGoverns SourceKeyAgrees NoSharedCounter DisabledNeverDrops ExceptionNeverDrops SpamOnlyIfBanned BanOnlyAfterThreshold UnbanWithin VerdictDetermined Export
 CHECK_DEADLOCK FALSE
